@@ -609,14 +609,19 @@ class World:
         Py = np.array([r[3] for r in rays], dtype=float)
         w = self.lens.wavelengths.wavelengths[rays[0][4] % nw].value
         # conditioning, measured rather than guessed: a second twin whose
-        # gaps are off by 1e-12 relative (far more than the round-off the
-        # edit history leaves in the real lens' positions) shows how much the
-        # traced quantities respond to such noise
+        # gaps are off by 1e-12 of the lens size (far more than the round-off
+        # the edit history leaves in the real lens' positions) shows how much
+        # the traced quantities respond to such noise
         jops = [dict(o) for o in ops]
+        size = 1.0 + sum(abs(o.get('thickness', 0)) for o in jops
+                         if o.get('op') == 'add_surface' and
+                         math.isfinite(o.get('thickness', 0)))
         for o in jops:
             if o.get('op') == 'add_surface' and \
                     math.isfinite(o.get('thickness', 0)):
-                o['thickness'] = o['thickness'] * (1 + 1e-12)
+                # positions are absolute: their round-off is relative to the
+                # size of the lens, not to the individual gap
+                o['thickness'] = o['thickness'] + 1e-12 * size
         try:
             jtwin = sut.new_lens(jops, share=False)
         except Exception:
